@@ -44,7 +44,7 @@ type Case struct {
 	Streams []ops.Hex `json:"streams"` // generated graphics shared by all goroutines
 }
 
-var jobKinds = []string{"render", "transcode", "disassemble", "viewbox", "generate", "resolve", "aspect", "color1", "options", "pathdata", "recorder"}
+var jobKinds = []string{"render", "transcode", "disassemble", "viewbox", "generate", "resolve", "aspect", "color1", "options", "pathdata", "recorder", "zeroenc"}
 
 // shared state: one palette array read by everybody
 var sharedPalette = func() [64]color.RGBA {
@@ -118,6 +118,15 @@ func runJob(j Job, inputs [][]byte) uint64 {
 		g.ClosePathEndPath()
 		b, err2 := e.Bytes()
 		return hash(b, []byte(fmt.Sprint(err, err2)))
+	case "zeroenc":
+		// a zero-value Encoder, never Reset (the default metadata is implied)
+		var e encode.Encoder
+		e.StartPath(uint8(j.Param%7), float32(j.Param%50), float32(j.Param%31)-20)
+		e.AbsLineTo(float32(j.Param%13), 5)
+		e.RelHLineTo(float32(j.Param % 9))
+		e.ClosePathEndPath()
+		b, err := e.Bytes()
+		return hash(b, []byte(fmt.Sprint(err)))
 	case "resolve":
 		creg := sharedPalette
 		var acc []byte
